@@ -452,9 +452,9 @@ Section Cross.
             destruct (Z.eq_dec (x + fC k + 1) n1) as [Eq|Ne]; [exfalso|lia].
             unfold scond in Hmax. rewrite HMsym in Hmax.
             replace (n1 - 1 - fC k) with x in Hmax by lia.
-            replace (n2 - 1 - (fC k - k)) with y in Hmax by (unfold k; lia).
+            replace (n2 - 1 - (fC k - k)) with y in Hmax by (assert (k = delta - a) by reflexivity; lia).
             rewrite Hm in Hmax.
-            destruct (fC k <? n1) eqn:T1; [|bz; lia]. destruct (fC k - k <? n2) eqn:T2; [|bz; unfold k in *; lia].
+            destruct (fC k <? n1) eqn:T1; [|bz; lia]. destruct (fC k - k <? n2) eqn:T2; [|bz; assert (k = delta - a) by reflexivity; lia].
             discriminate.
           - unfold P. fold d lo a x0. repeat split; lia. }
         unfold P in Hp.
@@ -490,7 +490,8 @@ Section Cross.
             destruct (st_form n1 n2 MO delta DO fO sO eO spO epO LO HO fO' sO' eO' N off vlen false g IO HN C a)
               as [(i & Hi & ->)|[(Wa' & E)|(Wa' & E)]].
             + pose proof (st_new n1 n2 MO delta DO fO sO eO fO' sO' eO' N off vlen false g C i Hi) as En.
-              change (fO' (lo + 2 * i) = nvO (lo + 2 * i)) in En. rewrite En.
+              rewrite En.
+              change (Sep (nvO (lo + 2 * i)) (lo + 2 * i) (fC (delta - (lo + 2 * i))) (delta - (lo + 2 * i))).
               apply o_same; [lia|lia|assumption].
             + rewrite E. apply (q_sep _ _ _ _ _ _ _ _ _ _ _ _ _ _ _ _ QI); try assumption. unfold near. lia.
             + exfalso. unfold LO', HO' in *. lia.
